@@ -5,7 +5,7 @@ import time
 from pathlib import Path
 
 VERIF = Path(__file__).resolve().parents[2]
-EVID = VERIF / "evidence"
+EVID = Path(os.environ["VERIF_EVIDENCE_DIR"]) if os.environ.get("VERIF_EVIDENCE_DIR") else VERIF / "evidence"
 KNOWN = VERIF / "known_findings.json"
 
 
